@@ -115,11 +115,13 @@ REG.add(Contract("Parser.__init__", module=M_PA, kind="method", view="string", p
 _GRAMMAR = "forall(Opaque[Ast], lambda n: implies(is_ast_importfrom(n) and ast_level(n) == 0, not is_none(ast_module(n))))"
 _GRAMMAR_NOTE = "requires: the grammar fact that 'from X import ...' with level 0 always has a module (precondition of ImportConverter.convert)"
 REG.macro("scanned", ["exclusions", "root_path", "module_path", "n"], "fs_contrib(exclusions, root_path, module_path, n)")
+REG.macro("parsed", ["exclusions", "root_path", "module_path", "m"], "fs_ast_contrib(exclusions, root_path, module_path, m)")
 REG.add(Contract("_get_all_ast_modules", module=M_GG, view="string",
                  params=dict(module_path="Opaque[Path]", root_path="Opaque[Path]", exclusions="Bag[Str]"), returns="Tuple[Bag[Str],Bag[NamedModule]]",
                  # C04 / C08: the module list is the scan of module_path, named from root_path, pruned by exactly the given patterns
                  ensures=["forall(Str, lambda n: (n in result[0]) == scanned(exclusions, root_path, module_path, n))",
-                          "forall(NamedModule, lambda m: implies(m in result[1], nm_name(m) in result[0]))"],
+                          # C08: the files handed to the import converter are exactly the non-excluded .py files of that scan
+                          "forall(NamedModule, lambda m: (m in result[1]) == parsed(exclusions, root_path, module_path, m))"],
                  properties=["C04", "C08"]))
 REG.macro("converted", ["asts", "prefix", "internal", "i"],
           "exists(NamedModule, lambda m: (m in asts) and imp_contrib(prefix, internal, nm_ast(m), nm_name(m), i))")
@@ -145,12 +147,23 @@ REG.macro("opt_pat", ["o", "p"], "(not is_none(o)) and (p in unwrap(o))")
 REG.macro("opt_pat_excluded", ["o", "s"], "exists(Str, lambda p: opt_pat(o, p) and re_match(p, s))")
 REG.macro("adjusted_limit", ["lim", "level_limit", "diff"],
           "(is_none(lim) == is_none(level_limit)) and implies(not is_none(level_limit), unwrap(lim) == unwrap(level_limit) + (0 if diff == '.' else count_sep(diff, '.') + 1))")
+REG.macro("scan_converted", ["exclusions", "root_path", "module_path", "prefix", "internal", "i"],
+          "exists(NamedModule, lambda m: parsed(exclusions, root_path, module_path, m) and imp_contrib(prefix, internal, nm_ast(m), nm_name(m), i))")
+REG.macro("scan_internal", ["exclusions", "root_path", "module_path", "diff"],
+          "_get_all_internal_modules(setof(Str, lambda n: scanned(exclusions, root_path, module_path, n)), int_prefix(diff, root_path))")
 REG.add(Contract("generate_graph", module=M_GG, view="string",
                  params=dict(root_path="Opaque[Path]", module_path="Opaque[Path]", path_diff_between_root_and_module="Str", exclusions="Bag[Str]",
                              exclude_external_libraries="Bool", level_limit="Opt[Int]", external_exclusions="Opt[Bag[Str]]", ghost_ctor="CtorLog"),
                  returns=EG, modifies=["ghost_ctor"], requires=[_GRAMMAR],
                  raises=[("ValueError", "path_diff_between_root_and_module != '.' and not path_below(path_parent(module_path), path_parent(root_path))")],
                  locals=dict(external_exclusions="Opt[Bag[Str]]"),
+                 # proof hint (an obligation itself): the scanned module list, as a collection, IS the set the postconditions name
+                 ghost_at={"imports = _get_imports_from_ast(": ["same_elements(all_modules, setof(Str, lambda n: scanned(exclusions, root_path, module_path, n)))",
+                                                               "all_modules == setof(Str, lambda n: scanned(exclusions, root_path, module_path, n))"],
+                           # ... and the converter's output is the closed form the postconditions name
+                           "if external_exclusions is None": [
+                               "forall(Imp, lambda i: (i in imports) == scan_converted(exclusions, root_path, module_path, abs_prefix(path_diff_between_root_and_module, root_path, module_path), "
+                               "scan_internal(exclusions, root_path, module_path, path_diff_between_root_and_module), i))"]},
                  ensures=[
                      # exactly one graph is constructed and it is the one returned
                      "ghost_ctor.calls == old(ghost_ctor).calls + 1", "result._graph == ghost_ctor.made",
@@ -168,5 +181,16 @@ REG.add(Contract("generate_graph", module=M_GG, view="string",
                      # C10: externals excluded (and no pattern) -> no import to an external module reaches the constructor
                      "implies(exclude_external_libraries and not exists(Str, lambda p: opt_pat(external_exclusions, p)), "
                      "forall(Imp, lambda i: implies(i in ghost_ctor.imports, raw_internal(int_prefix(path_diff_between_root_and_module, root_path), imp_importee(i)))))",
+                     # C02 / C08 / C10: the import list handed to the constructor is the converter's output for exactly the parsed files of the scan (closed form) and
+                     # the internal modules of the scan (scan_internal: _get_all_internal_modules, a pure function under a sandwich contract, applied to the scanned module list),
+                     # filtered: nothing is invented, every import into the scanned tree survives EVERY external option, and without exclusion of externals nothing is dropped
+                     "forall(Imp, lambda i: implies(i in ghost_ctor.imports, scan_converted(exclusions, root_path, module_path, abs_prefix(path_diff_between_root_and_module, root_path, module_path), "
+                     "scan_internal(exclusions, root_path, module_path, path_diff_between_root_and_module), i)))",
+                     "forall(Imp, lambda i: implies(scan_converted(exclusions, root_path, module_path, abs_prefix(path_diff_between_root_and_module, root_path, module_path), "
+                     "scan_internal(exclusions, root_path, module_path, path_diff_between_root_and_module), i) and "
+                     "dotted_internal(int_prefix(path_diff_between_root_and_module, root_path), imp_importee(i)), i in ghost_ctor.imports))",
+                     "implies((not exclude_external_libraries) and not exists(Str, lambda p: opt_pat(external_exclusions, p)), "
+                     "forall(Imp, lambda i: implies(scan_converted(exclusions, root_path, module_path, abs_prefix(path_diff_between_root_and_module, root_path, module_path), "
+                     "scan_internal(exclusions, root_path, module_path, path_diff_between_root_and_module), i), i in ghost_ctor.imports)))",
                  ],
                  note=_GRAMMAR_NOTE, properties=["C04", "C08", "C09", "C10"]))
